@@ -11,7 +11,7 @@
 enum { EV_TFD_CREATE = 1, EV_TFD_SETTIME, EV_EPOLL_CTL, EV_RC, EV_VIOL, EV_FIRE, EV_STEP, EV_NOTE, EV_TIMEOUT };
 enum { V_FIRE_UNREGISTERED = 1, V_FIRE_DISABLED, V_FIRE_ONESHOT_TWICE, V_FIRE_DISPATCH_NOT_REENABLED, V_FIRE_NO_CONDITION,
        V_WRONG_EVENT_KIND, V_EOF_FLAG_MISSING, V_EOF_FLAG_SPURIOUS, V_MISSING_FIRE, V_WRONG_THREAD, V_OP_FAILED, V_ERROR_FLAG_SPURIOUS,
-       V_PROC_FLAGS };
+       V_PROC_FLAGS, V_FD_LEAK };
 
 int __real_timerfd_create(int clockid, int flags);
 int __real_timerfd_settime(int fd, int flags, const struct itimerspec *n, struct itimerspec *o);
@@ -71,7 +71,7 @@ static void prefork_kids(void) {
 		close(p[0]); g_kid[i] = pid; g_kid_ctl[i] = p[1]; g_kids = i + 1;
 	}
 }
-static tpt_p g_owner;
+static tpt_p g_owner; static int g_fd_base;
 static volatile uint64_t g_steps_done, g_viol;
 
 static void viol(int what, int id, int64_t detail) { TM_LOG(EV_VIOL, (uint16_t)what, (uint64_t)id, (id >= 0 && id < MAXID) ? (((uint64_t)g_id[id].kind << 8) | (uint64_t)g_id[id].flags) : 0xffff, detail); __atomic_add_fetch(&g_viol, 1, __ATOMIC_RELAXED); }
@@ -271,12 +271,21 @@ int main(void) {
 		for (i = 0; i < g_nprog && !in.bad; i++) { g_prog[i].op = vin_u8(&in); g_prog[i].id = vin_u8(&in); g_prog[i].kind = vin_u8(&in); g_prog[i].flags = vin_u8(&in); g_prog[i].arg = vin_u32(&in); }
 		g_owner = tp_thread_get(g_tp, 0);
 		__atomic_store_n(&g_observe, 1, __ATOMIC_RELAXED);
+		g_fd_base = tm_fd_count();
 		tp_threads_create(g_tp, 0);
 		tpt_msg_send(g_owner, NULL, 0, step_cb, NULL);
 		{ uint64_t t0 = tm_now(); while (!__atomic_load_n(&g_steps_done, __ATOMIC_ACQUIRE)) { struct timespec ts = {0, 500000}; nanosleep(&ts, NULL); if (tm_now() - t0 > 60000000000ull) { TM_LOG(EV_TIMEOUT, 0, g_pc, 0, 0); break; } } }
 	}
 	if (in.bad) { fprintf(stderr, "bad case\n"); return 3; }
 	__atomic_store_n(&g_observe, 0, __ATOMIC_RELAXED);
+	if (mode == 3 && __atomic_load_n(&g_steps_done, __ATOMIC_ACQUIRE)) {
+		/* every identifier was deleted by the history's epilogue: after closing our own descriptors
+		 * the process must hold exactly what it held when the history started */
+		int now;
+		for (i = 0; i < MAXID; i++) { if (g_id[i].fdr >= 0 && g_id[i].fdr != 0) close(g_id[i].fdr); if (g_id[i].fdw > 0 && g_id[i].fdw != g_id[i].fdr) close(g_id[i].fdw); g_id[i].fdr = g_id[i].fdw = -1; }
+		now = tm_fd_count() + (int)g_kid_next; /* control pipes of children that were told to exit are closed by design */
+		if (now != g_fd_base) { tm_tid = 999; viol(V_FD_LEAK, -1, ((int64_t)g_fd_base << 32) | (uint32_t)now); }
+	}
 	tp_shutdown(g_tp); tp_shutdown_wait(g_tp); tp_destroy(g_tp);
 	for (i = 0; i < g_kids; i++) { if (g_kid_ctl[i] >= 0) close(g_kid_ctl[i]); }
 	for (i = 0; i < g_kids; i++) waitpid(g_kid[i], NULL, 0);
